@@ -112,28 +112,18 @@ func group[T Opcoder](opcodes []opcode[T]) ([]maskGroup[T], error) {
 
 // checkConflicts asserts that no instruction conflicts with one another.
 //
-// The non-conflicting check is to be full n^2 algorithm. Please note that we
-// cannot match only for j which is greater than i as instructions can be prefix
-// of one another. In other words, the relation of being conflicting is in
-// general non-symmetrical. This holds even in case all instructions have the
-// same length as mask of one instruction can be bitwise subset of another mask.
+// The non-conflicting check is a full n^2 algorithm over all pairs of opcodes
+// from different mask groups (opcodes of one group are checked when the group is
+// created). Two opcodes conflict if any byte sequence matches both of them,
+// which is a symmetrical relation.
 func checkConflicts[T Opcoder](groups []maskGroup[T]) error {
-	// Make sure that no pair of opcodes conflicts.
-	//
-	// This has to be full n^2 algorithm - we cannot match only for j which
-	// is greater than i as instructions can be prefix of one another. In
-	// other words, the relation of being conflicting is in general
-	// non-symmetrical.
 	for i, gi := range groups {
-		for j, gj := range groups {
-			if i == j {
-				continue
-			}
-
-			for _, o := range gj.opcodes {
-				opc, ok := gi.matchInstruction(o.opcode.Bytes)
-				if ok {
-					return duplicateOpcodeErr(o, opc)
+		for _, gj := range groups[i+1:] {
+			for _, oi := range gi.opcodes {
+				for _, oj := range gj.opcodes {
+					if compatible(oi.opcode, oj.opcode) {
+						return duplicateOpcodeErr(oj, oi)
+					}
 				}
 			}
 		}
@@ -142,10 +132,27 @@ func checkConflicts[T Opcoder](groups []maskGroup[T]) error {
 	return nil
 }
 
-// Match matches a sequence of bytes to an instruction opcode.
+// compatible checks if there is any sequence of bytes matching both o1 and o2.
 //
-// It's allowed to pass bs of arbitrary length and those opcodes which can fit
-// bs will be matched.
+// Such sequence exists if and only if all the bits which are significant for
+// both opcodes (are set in both masks) have the same value in both opcodes. All
+// other bits of the sequence can be then chosen so they match the one opcode
+// which finds them significant.
+func compatible(o1 Opcode, o2 Opcode) bool {
+	l := len(o1.Mask)
+	if len(o2.Mask) < l {
+		l = len(o2.Mask)
+	}
+
+	for i := 0; i < l; i++ {
+		if (o1.Bytes[i]^o2.Bytes[i])&o1.Mask[i]&o2.Mask[i] != 0 {
+			return false
+		}
+	}
+
+	return true
+}
+
 func (d *Matcher[T]) Match(bs []byte) (T, bool) {
 	for _, g := range d.groups {
 		ins, ok := g.matchInstruction(bs)
